@@ -170,6 +170,35 @@ class C02StatsRelease(C02Stats):
         return c
 
 
+from mgrbase import MgrBase, protocol_scenario
+
+
+class C02Mgr(MgrBase):
+    """manager side of C02: who chokes us is each peer's last word; an idle unchoked peer announcing a missing piece is
+    asked at once (no wait for an Unchoke that never comes)"""
+    id = "C02"
+    coq_header = ("From Rdest Require Import Base Consts Wire Manager Corr.Mgr.\nOpen Scope N_scope.\n"
+                  "Definition codes := codes02m.\n")
+    rule = ""
+
+    def corpus(self):
+        # a fellow downloader with nothing to offer unchokes us, later announces a piece
+        a = ["add 1", "init 1", "bf 1 00", "unchoke 1", "have 1 0", "done 1", "have 1 1"]
+        return [self.mk("prod", 2, 4, 7, a, "liveness-mgr")]
+
+    def gen(self, rng, tier):
+        k = {"quick": 200, "thorough": 5000, "search": 1200}.get(tier, 200)
+        w = {"unchoke": 6, "choke": 3, "have": 8, "done": 5, "cancel": 1, "kill": 1, "join": 2, "bfsparse": 3, "nint": 1, "tresp": 1}
+        cases = []
+        for _ in range(k):
+            n = rng.choice([1, 2, 3, 4, 11])
+            pl = 4
+            total = pl * n - rng.randrange(0, pl)
+            ops = protocol_scenario(rng, rng.choice([1, 2, 3]), n, rng.choice([10, 16, 24]), weights=w)
+            cases.append(self.mk("prod", n, pl, total, ops, "liveness-mgr"))
+        return cases
+
+
 PROP = C02()
-PROP.parts = [PROP, C02Stats()]
+PROP.parts = [PROP, C02Stats(), C02Mgr()]
 PROP.release_parts = [C02StatsRelease()]
